@@ -19,7 +19,7 @@ func withinRole(c *core.Ctx, fn *ssa.Function, ok func(*ssa.Function) bool, dept
 		}
 		return false
 	}
-	if fn.Object() == nil || fn.Object().Exported() {
+	if fn.Object() == nil || (fn.Object().Exported() && pureForwarder(fn) == nil) {
 		return false
 	}
 	callers := c.Callers(fn)
@@ -173,4 +173,73 @@ func tableReaders(c *core.Ctx, fn *ssa.Function, uses []ssa.Instruction) ([]*ssa
 		}
 	}
 	return readers, len(readers) > 0
+}
+
+// pureForwarder: fn does nothing but hand its own parameters, in order, to one static callee of the module (a same-named
+// method of the object behind a facade, a function it was extracted into) and return what that returns; the helpers
+// it uses to get at the receiver are single-block functions without calls.  Returns the callee, or nil.
+func pureForwarder(fn *ssa.Function) *ssa.Function {
+	if fn == nil || len(fn.Blocks) != 1 || fn.Parent() != nil {
+		return nil
+	}
+	var fwd *ssa.Call
+	for _, ci := range core.Calls(fn) {
+		if core.IsLogCall(ci.Common()) {
+			continue
+		}
+		call, ok := ci.(*ssa.Call)
+		if !ok {
+			return nil
+		}
+		cal := call.Common().StaticCallee()
+		if cal == nil {
+			return nil
+		}
+		if len(cal.Blocks) == 1 && len(core.Calls(cal)) == 0 && len(cal.Params) <= 1 && fwd == nil {
+			continue // gets at the object behind the facade
+		}
+		if fwd != nil {
+			return nil
+		}
+		fwd = call
+	}
+	if fwd == nil {
+		return nil
+	}
+	cal := fwd.Common().StaticCallee()
+	args := fwd.Common().Args
+	// the facade's own parameters (after the receiver), in order, are the callee's last arguments
+	own := fn.Params
+	if fn.Signature.Recv() != nil {
+		own = own[1:]
+	}
+	if len(args) < len(own) {
+		return nil
+	}
+	tail := args[len(args)-len(own):]
+	for i, a := range tail {
+		if core.Norm(a) != ssa.Value(own[i]) {
+			return nil
+		}
+	}
+	ret, ok := fn.Blocks[0].Instrs[len(fn.Blocks[0].Instrs)-1].(*ssa.Return)
+	if !ok {
+		return nil
+	}
+	for i, rv := range ret.Results {
+		switch x := rv.(type) {
+		case *ssa.Extract:
+			if x.Tuple != ssa.Value(fwd) || x.Index != i {
+				return nil
+			}
+		default:
+			if rv != ssa.Value(fwd) {
+				return nil
+			}
+		}
+	}
+	if o := cal.Origin(); o != nil {
+		cal = o
+	}
+	return cal
 }
